@@ -754,6 +754,46 @@ package storage
 //@   loop 3 invariant[visit; C01] forall j int :: 0 <= j && j <= rangeindex ==> lc(pg,j).deleted || visited(lc(pg,j))
 //@   loop 3 exit[leaf.complete; C01] forall j int :: 0 <= j && j < cnt(pg) ==> lc(pg,j).deleted || visited(lc(pg,j))
 
+// ---- reading a table (C01 C05 C18): what the engine's RelationManager.Fetch contract takes for granted, proved for the real Fetch ----
+
+//@ spec pred rowShape(row *Row, fields Fields) { row != nil && len(row.Vals) == len(fields) }
+//@ spec pred rowsShape(rows []*Row, fields Fields) { forall i int :: 0 <= i && i < len(rows) ==> rowShape(rows[i], fields) }
+//@ spec pred rowsDistinct(rows []*Row) { forall i, j int :: 0 <= i && i < j && j < len(rows) ==> rows[i] < rows[j] }
+//@ spec pred colsAreNames(fields Fields) { forall j int :: 0 <= j && j < len(fields) ==> fields[j] != nil && typeof(fields[j].Column) == typ(string) }
+
+// One row per cell handed over by the scan, in scan order, carrying the cell's key as row id and one value per field.
+//@ func (rs *RelationService) scanRelation$1(cell *leafCell) (ScanAction, error)
+//@   props C01 C05 C18
+//@   requires cell != nil && schemaOK(r) && colsAreNames(fields)
+//@   invariant[rows.alloc; C01 C18] (results == nil || allocated(results)) && (forall i int :: 0 <= i && i < len(results) ==> results[i] != nil && allocated(results[i]))
+//@   invariant[rows.shape; C01 C18] rowsShape(results, fields)
+//@   invariant[rows.distinct; C01 C18] rowsDistinct(results)
+//@   modifies cell(results), elems(results), storeState
+//@   ensures[one; C01] result1 == nil ==> result0 == KeepScanning && len(results) == old(len(results)) + 1 && results[len(results)-1].RowID == cell.key
+//@   ensures[kept; C01] forall i int :: 0 <= i && i < old(len(results)) ==> results[i] == old(results[i])
+//@   ensures[err; C01] result1 != nil ==> len(results) == old(len(results))
+//@   loop 1 invariant row != nil && fresh(row) && len(row.Vals) == rangeindex + 1 && rangeindex < len(fields) && (row.Vals == nil || fresh(row.Vals)) && row.RowID == cell.key
+//@   loop 1 invariant forall q *Row :: !fresh(q) ==> q.Vals == old(q.Vals) && q.RowID == old(q.RowID)
+//@   ensures[last.shape; C01] result1 == nil ==> rowShape(results[len(results)-1], fields)
+//@   ensures[old.shape; C01] forall i int :: 0 <= i && i < old(len(results)) ==> results[i].Vals == old(results[i].Vals)
+
+//@ func (rs *RelationService) scanRelation(fileOffset uint64, r *Relation, fields Fields) ([]*Row, error)
+//@   props C01 C05 C18
+//@   requires rsOK(rs) && fsLocked(rs.fs) && schemaOK(r) && colsAreNames(fields)
+//@   modifies all(leafCell.pg), @cacheState, storeState
+//@   ensures[rs] rsOK(rs)
+//@   ensures[shape; C01 C18] err == nil ==> rowsShape(result0, fields) && rowsDistinct(result0)
+
+//@ func (rs *RelationService) Fetch(tableName string) ([]*Row, []*Field, error)
+//@   props C01 C05 C18
+//@   requires rsOK(rs) && fsLocked(rs.fs)
+//@   modifies all(leafCell.pg), @cacheState, storeState
+//@   ensures[rs] rsOK(rs)
+//@   ensures[fields; C01 C18] err == nil ==> colsAreNames(result1) && (result1 == nil || fresh(result1)) && (forall j int :: 0 <= j && j < len(result1) ==> fresh(result1[j]))
+//@   ensures[rows; C01 C18] err == nil ==> rowsShape(result0, result1) && rowsDistinct(result0)
+//@   loop 1 invariant (fields == nil || fresh(fields)) && len(fields) == rangeindex + 1 &&
+//@              (forall j int :: 0 <= j && j < len(fields) ==> fields[j] != nil && fresh(fields[j]) && typeof(fields[j].Column) == typ(string))
+
 // ---- relation service: LSN protocol (C02), error frames (C14), statement bracket (C13) ----
 
 //@ spec pred rsOK(rs *RelationService) { rs.fs != nil && cacheOK(rs.fs) && rs.wal != nil && rs.wal.reader != nil }
